@@ -135,6 +135,12 @@ def s1_attr_split():
         ('crate_first', [dw([('NV', P('crate'), ('EPath', (False, ['dw_'])))]), dw(['Clone', 'Debug'], ['T'])]),
         ('crate_str', [dw([('NV', P('crate'), ('EStr', '"::my::dw"', (True, ['my', 'dw'])))]), dw(['Hash'], ['T'])]),
         ('order', [dw(['Debug', 'Clone'], ['U', 'T']), dw(['Hash'], ['T', 'U'])]),
+        # the same trait requested by two attributes under DIFFERENT bounds: two impls of one trait for one type always overlap
+        ('same_trait_diff', [dw(['Clone'], ['T']), dw(['Clone'], ['U'])]),
+        ('same_trait_diff_nonadj', [dw(['Clone'], ['T']), dw(['Debug'], ['U']), dw(['Clone'], ['V'])]),
+        ('same_trait_custom_vs_plain', [dw(['Debug'], [('Pred', ['T', ':', 'Tr'])]), dw(['Debug'], ['T'])]),
+        ('same_trait_overlap', [dw(['Clone', 'Debug'], ['T']), dw(['Debug', 'Hash'], ['U'])]),
+        ('same_trait_nobound_vs_bound', [dw(['Hash']), dw(['Hash'], ['T'])]),
     ]
     # adjacent attributes: merged only when the bound LISTS are equal (not merely equal as sets)
     rel = [('equal', ['T', 'U'], ['T', 'U']), ('permuted', ['T', 'U'], ['U', 'T']), ('set_eq_a', ['T', 'U'], ['T', 'T']), ('set_eq_b', ['T', 'T'], ['T', 'U']),
